@@ -248,7 +248,8 @@ def run_property(prop, tier, seed, level, explanation="", trusted_base=(), worke
 
     wanted = {prop, *DEPENDS.get(prop, ())}
     obs = [(i, ob) for i, ob in enumerate(registry.OBLIGATIONS) if wanted & set(ob.props) and (ob.tier == "quick" or tier == "thorough")]
-    comps = [(i, c) for i, c in enumerate(registry.COMPONENTS) if prop in c.props and (c.tier == "quick" or tier == "thorough")]
+    # static components (typestate, frame rules) of the properties this one stands on are part of the closure; bounded components are not
+    comps = [(i, c) for i, c in enumerate(registry.COMPONENTS) if (prop in c.props or (c.kind == "static" and wanted & set(c.props))) and (c.tier == "quick" or tier == "thorough")]
     only = os.environ.get("PYVC_ONLY")  # development only: run the obligations / components whose name contains this text
     if only:
         if OUT == ROOT:
